@@ -32,6 +32,9 @@ func init() {
 			} else {
 				o = judgeSeqBoth(env, c, canon.Options{KeepParens: true})
 			}
+			if len(c.Changes) == 1 {
+				o = rejectionIsViolation(o, c.Changes[0].Render(), c.File)
+			}
 			if o.Violation != "" {
 				o.FindingKey = "C02:" + o.FindingKey + "/" + strings.SplitN(c.Tag, "/", 2)[0]
 			}
